@@ -179,10 +179,13 @@ func cmdCheck(args []string) int {
 			pats = append(pats, extra)
 		}
 	}
-	if len(pats) == 0 {
+	if len(pats) == 0 && len(analyses[id]) == 0 {
 		fmt.Printf("BROKEN: no contract file mentions %s\n", id)
 		return 2
 	}
+	// the whole module is loaded: closed-world reasoning (implementers, write sites, call graph)
+	// needs every package
+	pats = []string{"./..."}
 	P, err := loadProgram(root, pats)
 	if err != nil {
 		// a tree that does not compile is not a property violation; report as broken
